@@ -22,49 +22,57 @@ HeaderShapes == {<<"T">>, <<"T", "B", "T">>, <<"T", "B", "T", "T">>, <<"T", "B",
 FooterShapes == {<<>>, <<"B", "T">>, <<"B", "D", "D">>, <<"B", "T", "B", "T">>, <<"B", "T", "U", "T">>}
 \* the route a conversion takes: the docstring parser + emitter directly, or a function definition parsed and re-emitted
 \* (the path `doctrans` takes: the original docstring is carried alongside the IR)
-Routes == {"docstring", "function"}
+\* "ir": the docstring parser, then the emitter from the interface description ALONE (header and footer travel inside its `doc` field:
+\* the afterward text is folded back into it)
+Routes == {"docstring", "function", "ir"}
 \* the section of each style for one parameter + a return entry: which of its lines are blank separators
 SectionOf(st) == CASE st = "rest" -> <<"S", "S", "SB", "S", "S">>                  \* :param/:type, blank, :return/:rtype
                    [] st = "google" -> <<"S", "S", "SB", "S", "S">>                \* Args: / item, blank, Returns: / item
                    [] st = "numpydoc" -> <<"S", "S", "S", "S", "SB", "S", "S", "S", "S">>
+\* which entries the section holds: parameters and a return entry, parameters only, a return entry only
+Sects == {"both", "params", "ret"}
+SectionOfKind(st, k) == CASE k = "both" -> SectionOf(st)
+                          [] k = "params" -> (IF st = "numpydoc" THEN <<"S", "S", "S", "S">> ELSE <<"S", "S">>)
+                          [] k = "ret" -> (IF st = "numpydoc" THEN <<"S", "S", "S", "S">> ELSE IF st = "google" THEN <<"S", "S", "S">> ELSE <<"S", "S">>)
 Number(kinds, base) == [k \in 1..Len(kinds) |-> [k |-> kinds[k], id |-> base + k]]
-Doc(h, st, f) == Number(h, 100) \o <<[k |-> "B", id |-> 0]>> \o Number(SectionOf(st), 200) \o Number(f, 300)
+Doc(h, st, f, sk) == Number(h, 100) \o <<[k |-> "B", id |-> 0]>> \o Number(SectionOfKind(st, sk), 200) \o Number(f, 300)
 
 IsSection(l) == l.k \in {"S", "SB"}
 FirstS(d) == CHOOSE i \in 1..Len(d) : IsSection(d[i]) /\ \A j \in 1..(i - 1) : ~IsSection(d[j])
 LastS(d) == CHOOSE i \in 1..Len(d) : IsSection(d[i]) /\ \A j \in (i + 1)..Len(d) : ~IsSection(d[j])
 Split(d) == <<SubSeq(d, 1, FirstS(d) - 1), SubSeq(d, FirstS(d), LastS(d)), SubSeq(d, LastS(d) + 1, Len(d))>>
-Restyle(d, to) == Split(d)[1] \o Number(SectionOf(to), 200) \o Split(d)[3]
+Restyle(d, to, sk) == Split(d)[1] \o Number(SectionOfKind(to, sk), 200) \o Split(d)[3]
 Prose(s) == SelectSeq(s, LAMBDA l : l.k \in {"T", "I", "D", "U"})
 
 \* the named deviation: at indentation >= 1 a blank separator inside the section is re-indented by the split
 \* (a docstring that sits in a function is written one level deeper than the function)
 TextIndent(indent, route) == indent + (IF route = "function" THEN 1 ELSE 0)
-Reindents(indent, st) == "split_reindents_blank_lines" \in Enabled /\ indent >= 1 /\ \E k \in 1..Len(SectionOf(st)) : SectionOf(st)[k] = "SB"
+\* (it also drops the indentation of the last, whitespace-only line before the closing quotes: any section kind)
+Reindents(indent, st, sk) == "split_reindents_blank_lines" \in Enabled /\ indent >= 1
 
-VARIABLES h, f, from, to, indent, pc, parts, restyled, route
-vars == <<h, f, from, to, indent, pc, parts, restyled, route>>
-Init == /\ h \in HeaderShapes /\ route \in Routes /\ f \in FooterShapes /\ from \in StyleSet /\ to \in StyleSet /\ indent \in 0..2
+VARIABLES h, f, from, to, indent, pc, parts, restyled, route, sect
+vars == <<h, f, from, to, indent, pc, parts, restyled, route, sect>>
+Init == /\ h \in HeaderShapes /\ route \in Routes /\ sect \in Sects /\ f \in FooterShapes /\ from \in StyleSet /\ to \in StyleSet /\ indent \in 0..2
         /\ (\E k \in 1..3 : Styles[k] = from /\ k % NShards = Shard)
         /\ pc = "start" /\ parts = <<>> /\ restyled = <<>>
-DoSplit == pc = "start" /\ parts' = Split(Doc(h, from, f)) /\ pc' = "split" /\ UNCHANGED <<h, f, from, to, indent, restyled, route>>
-DoRestyle == pc = "split" /\ restyled' = Restyle(Doc(h, from, f), to) /\ pc' = "done" /\ UNCHANGED <<h, f, from, to, indent, parts, route>>
+DoSplit == pc = "start" /\ parts' = Split(Doc(h, from, f, sect)) /\ pc' = "split" /\ UNCHANGED <<h, f, from, to, indent, restyled, route, sect>>
+DoRestyle == pc = "split" /\ restyled' = Restyle(Doc(h, from, f, sect), to, sect) /\ pc' = "done" /\ UNCHANGED <<h, f, from, to, indent, parts, route, sect>>
 Next == DoSplit \/ DoRestyle
 Spec == Init /\ [][Next]_vars
 
 IsSubseq(a, b) == \E g \in [1..Len(a) -> 1..Len(b)] : (\A i \in 1..Len(a) : b[g[i]] = a[i]) /\ (\A i, j \in 1..Len(a) : i < j => g[i] < g[j])
-SplitConcat == pc \in {"split", "done"} => parts[1] \o parts[2] \o parts[3] = Doc(h, from, f)
+SplitConcat == pc \in {"split", "done"} => parts[1] \o parts[2] \o parts[3] = Doc(h, from, f, sect)
 HeaderClean == pc \in {"split", "done"} => (\A i \in 1..Len(parts[1]) : ~IsSection(parts[1][i])) /\ (\A i \in 1..Len(parts[3]) : ~IsSection(parts[3][i]))
 \* the header part holds ALL the header prose, and only it (where the section ends and the footer begins is left open by the
 \* statement beyond the concatenation identity, so FooterWhole is checked on the model but not demanded of the code)
 HeaderWhole == pc \in {"split", "done"} => Prose(parts[1]) = Prose(Number(h, 100))
 FooterWhole == pc \in {"split", "done"} => Prose(parts[3]) = Prose(Number(f, 300))
 HeaderKept == pc = "done" => IsSubseq(Prose(Number(h, 100)), restyled)
-\* ReST: the last `:rtype:` line swallows the footer prose that follows it into the return type
+\* ReST: the last `:type` / `:rtype:` line swallows the footer prose that follows it into the type
 Absorbs == "rest_footer_absorbed_into_rtype" \in Enabled /\ from = "rest" /\ f # <<>>
-Fired == (IF Reindents(TextIndent(indent, route), from) THEN {"split_reindents_blank_lines"} ELSE {})
+Fired == (IF Reindents(TextIndent(indent, route), from, sect) THEN {"split_reindents_blank_lines"} ELSE {})
          \cup (IF Absorbs THEN {"rest_footer_absorbed_into_rtype"} ELSE {})
 RECURSIVE SetToSeq(_)
 SetToSeq(S) == IF S = {} THEN <<>> ELSE LET x == CHOOSE x \in S : TRUE IN <<x>> \o SetToSeq(S \ {x})
-Dump == pc = "done" => PrintT(ToJson([h |-> h, f |-> f, from |-> from, to |-> to, indent |-> indent, route |-> route, devs |-> SetToSeq(Fired)]))
+Dump == pc = "done" => PrintT(ToJson([h |-> h, f |-> f, from |-> from, to |-> to, indent |-> indent, route |-> route, sect |-> sect, devs |-> SetToSeq(Fired)]))
 =====================================================================================
